@@ -30,7 +30,7 @@ structure Fixes where
 def Fixes.orig : Fixes := ⟨false, false, false, false, false, false, false⟩
 
 /-- the code the correspondence currently runs against (one flag per `fix:` commit of this family) -/
-def Fixes.cur : Fixes := ⟨false, false, false, false, false, false, false⟩
+def Fixes.cur : Fixes := ⟨true, true, true, true, true, true, true⟩
 
 /-! ## static tag sets (tag.go `IsHeader`, `IsTrailer`) — compared with the implementation by the `static` op -/
 
@@ -262,12 +262,13 @@ inductive Mode where
   deriving Inhabited
 
 /-- the `switch` of the main loop for the field just stored at `idx`; `some mode` = `parseGroup` was entered -/
-def mainSwitch (d : Dicts) (fields : List TagValue) (idx : Nat) (tv : TagValue) (c : PCore) : PCore × Option Mode :=
+def mainSwitch (fx : Fixes) (d : Dicts) (fields : List TagValue) (idx : Nat) (tv : TagValue) (c : PCore) : PCore × Option Mode :=
   if isHeaderField d tv.tag then ({ c with header := c.header.add tv.tag (.view idx 1) }, Option.none)
   else if isTrailerField d tv.tag then
     ({ c with trailer := c.trailer.add tv.tag (.view idx 1), foundTrailer := true }, Option.none)
   else if isNumInGroupField d fields c.header [tv.tag] then
-    ({ c with foundBody := true }, some (.grp idx [tv.tag] (getGroupFields d fields c.header [tv.tag])))
+    ({ c with foundBody := true, trailerBytes := if fx.d7 then c.rawBytes else c.trailerBytes },
+     some (.grp idx [tv.tag] (getGroupFields d fields c.header [tv.tag])))
   else
     ({ c with foundBody := true, trailerBytes := c.rawBytes, body := c.body.add tv.tag (.view idx 1) }, Option.none)
 
@@ -292,10 +293,9 @@ def popToMember (d : Dicts) (fields : List TagValue) (header : FieldMap) (t : Ta
 /-- one iteration of `parseGroup` for the field now at `idx` (`c.rawBytes` already advanced);
     `some mode` = continue inside `parseGroup`, `none` = `break` -/
 def grpSwitch (fx : Fixes) (d : Dicts) (fields : List TagValue) (idx : Nat) (tv : TagValue)
-    (dmStart : Nat) (tags : List Tag) (gfields : List DNode) (rawBefore : Bytes) (c : PCore) : Res (PCore × Option Mode) :=
+    (dmStart : Nat) (tags : List Tag) (gfields : List DNode) (c : PCore) : Res (PCore × Option Mode) :=
   let cT := if fx.d7 then c else { c with trailerBytes := c.rawBytes }     -- ORIGINAL: advanced after every field
   let cB := { c with trailerBytes := c.rawBytes }
-  let _ := rawBefore
   if isGroupMember tv.tag gfields then
     if isNumInGroupField d fields c.header (tags ++ [tv.tag]) then
       .ok (cB, some (.grp dmStart (tags ++ [tv.tag]) (getGroupFields d fields c.header (tags ++ [tv.tag]))))
@@ -379,7 +379,7 @@ def parseLoop (fx : Fixes) (d : Dicts) (mode : Mode) (fields : List TagValue) (i
       | .fault w => .fault w
       | .ok tv =>
         let fields' := fields.set idx tv
-        match mainSwitch d fields' idx tv { c0 with rawBytes := ex.1 } with
+        match mainSwitch fx d fields' idx tv { c0 with rawBytes := ex.1 } with
         | (c1, some m) => parseLoop fx d m fields' (idx + 1) c1
         | (c1, Option.none) =>
           match tailStep fields' tv c1 with
@@ -394,7 +394,7 @@ def parseLoop (fx : Fixes) (d : Dicts) (mode : Mode) (fields : List TagValue) (i
       | r =>
         let tv : TagValue := match r with | .ok tv => tv | _ => fields[idx]
         let fields' := fields.set idx tv
-        match grpSwitch fx d fields' idx tv dmStart tags gfields c.rawBytes { c with rawBytes := ex.1 } with
+        match grpSwitch fx d fields' idx tv dmStart tags gfields { c with rawBytes := ex.1 } with
         | .ok (c1, some m) => parseLoop fx d m fields' (idx + 1) c1
         | .ok (c1, Option.none) =>
           (match tailStep fields' tv c1 with
